@@ -159,6 +159,12 @@ func TestCheck(t *testing.T) {
 	for _, s := range situations {
 		r.Floor(s, 5)
 	}
+	r.Assume("gated scenarios: a call is taken to have backed off (dropped the parent's lock) when a goroutine dump shows it blocked on a mutex inside LockPile.Lock while a harness-owned InitialContentsFetcher holds the child's lock; the driver mutates only then")
+	gatedFloors := map[string]int{"readdir-backoff-entry-detached-meanwhile": 30, "readdir-backoff-entry-kept": 3, "readdir-backoff-in-a-resumed-listing": 10,
+		"backoff-entry-detached-meanwhile:lookup": 5, "backoff-entry-detached-meanwhile:remove": 5, "backoff-entry-detached-meanwhile:rename-onto": 5}
+	for s, n := range gatedFloors {
+		r.Floor(s, n)
+	}
 
 	cfgs := configs()
 	if rf := r.ReplayFile(); rf != "" {
@@ -172,7 +178,12 @@ func TestCheck(t *testing.T) {
 		for _, s := range situations {
 			r.Floor(s, 0)
 		}
+		for s := range gatedFloors {
+			r.Floor(s, 0)
+		}
 		switch w.Witness.Phase {
+		case "gated":
+			runGatedCase(r, w.Witness.Cfg, cfgs[w.Witness.Cfg], w.Witness.Case)
 		case "direct":
 			runDirectCase(r, w.Witness.Cfg, cfgs[w.Witness.Cfg], w.Witness.Case)
 		default:
@@ -194,6 +205,12 @@ func TestCheck(t *testing.T) {
 			jobs = append(jobs, job{"direct", c, i})
 		}
 	}
+	nGated := r.Pick(60, 1200)
+	for c := range cfgs {
+		for i := 0; i < nGated; i++ {
+			jobs = append(jobs, job{"gated", c, i})
+		}
+	}
 	for _, phase := range frontEnds {
 		for c := range cfgs {
 			for i := 0; i < nFront/len(cfgs)+1; i++ {
@@ -213,6 +230,8 @@ func TestCheck(t *testing.T) {
 			for j := range ch {
 				if j.phase == "direct" {
 					runDirectCase(r, j.cfg, cfgs[j.cfg], j.i)
+				} else if j.phase == "gated" {
+					runGatedCase(r, j.cfg, cfgs[j.cfg], j.i)
 				} else {
 					runFrontEndCase(r, j.phase, j.cfg, cfgs[j.cfg], j.i)
 				}
